@@ -635,18 +635,76 @@ func poolTxV2(t types.V2Transaction) PoolTx {
 	return p
 }
 
+// v1Parents returns the pooled v1 transactions that create outputs txn spends
+// (transitively), in pool order. The harness computes this itself from
+// PoolTransactions() instead of using Manager.UnconfirmedParents, whose
+// behaviour with a mixed v1/v2 pool is another property's business.
+func v1Parents(pool []types.Transaction, txn types.Transaction) (parents []types.Transaction) {
+	creator := make(map[types.SiacoinOutputID]int)
+	for i := range pool {
+		for j := range pool[i].SiacoinOutputs {
+			creator[pool[i].SiacoinOutputID(j)] = i
+		}
+	}
+	need := make(map[int]bool)
+	var visit func(t *types.Transaction)
+	visit = func(t *types.Transaction) {
+		for _, in := range t.SiacoinInputs {
+			if i, ok := creator[in.ParentID]; ok && !need[i] {
+				need[i] = true
+				visit(&pool[i])
+			}
+		}
+	}
+	visit(&txn)
+	for i := range pool {
+		if need[i] {
+			parents = append(parents, pool[i])
+		}
+	}
+	return
+}
+
+func v2Parents(pool []types.V2Transaction, txn types.V2Transaction) (parents []types.V2Transaction) {
+	creator := make(map[types.SiacoinOutputID]int)
+	for i := range pool {
+		id := pool[i].ID()
+		for j := range pool[i].SiacoinOutputs {
+			creator[pool[i].SiacoinOutputID(id, j)] = i
+		}
+	}
+	need := make(map[int]bool)
+	var visit func(t *types.V2Transaction)
+	visit = func(t *types.V2Transaction) {
+		for _, in := range t.SiacoinInputs {
+			if i, ok := creator[in.Parent.ID]; ok && !need[i] {
+				need[i] = true
+				visit(&pool[i])
+			}
+		}
+	}
+	visit(&txn)
+	for i := range pool {
+		if need[i] {
+			parents = append(parents, pool[i])
+		}
+	}
+	return
+}
+
 // Submit hands a signed Owned to the pool: v1 through AddPoolTransactions
-// (with the unconfirmed parents the manager reports), v2 through
-// AddV2PoolTransactions with the basis FundV2Transaction / Redistribute
-// returned (through V2TransactionSet first when unconfirmed outputs may have
-// been selected), or through the wallet's own BroadcastV2TransactionSet.
+// (preceded by its unconfirmed parents), v2 through AddV2PoolTransactions with
+// the basis FundV2Transaction / Redistribute returned, or through the wallet's
+// own BroadcastV2TransactionSet. A v2 transaction that spends unconfirmed
+// outputs is first brought to the tip the pool snapshot belongs to and is
+// submitted behind its pooled parents.
 func (l *Lab) Submit(rc *Rec, o *Owned, viaWallet bool) *Event {
 	cm, w := l.CM, l.W
 	var err error
 	if !o.V2 {
 		var set []types.Transaction
 		return rc.do(Event{Op: OpSubmit1, H: o.H}, func() {
-			set = append(cm.UnconfirmedParents(o.T1), o.T1)
+			set = append(v1Parents(cm.PoolTransactions(), o.T1), o.T1)
 			_, err = cm.AddPoolTransactions(set)
 		}, func(ev *Event) {
 			ev.Err, ev.OK = errStr(err), err == nil
@@ -670,11 +728,21 @@ func (l *Lab) Submit(rc *Rec, o *Owned, viaWallet bool) *Event {
 			}
 		}
 		if ephemeral && len(o.T2) == 1 {
-			basis, set, err = cm.V2TransactionSet(o.Basis, o.T2[0])
-			if err != nil {
-				err = fmt.Errorf("V2TransactionSet: %w", err)
+			var tip types.ChainIndex
+			var pool []types.V2Transaction
+			for {
+				tip = cm.Tip()
+				pool = cm.V2PoolTransactions()
+				if cm.Tip() == tip {
+					break
+				}
+			}
+			own, e := cm.UpdateV2TransactionSet([]types.V2Transaction{o.T2[0].DeepCopy()}, o.Basis, tip)
+			if e != nil || len(own) != 1 {
+				err = fmt.Errorf("cannot bring the transaction from its basis to the tip: %v", e)
 				return
 			}
+			basis, set = tip, append(v2Parents(pool, own[0]), own[0])
 		}
 		if viaWallet {
 			err = w.BroadcastV2TransactionSet(basis, set)
